@@ -183,10 +183,14 @@ def r1_limited_collect(ctx):
                    % (from_param, sorted(ncalls), foreign, arith))
     # LengthLimitError -> SizeLimitExceeded: the type the collect error is tested against (downcast_ref / is / downcast), in the function,
     # its inlined helpers or one of their closures
-    dc = [t for x in [body] + closures_of(ctx.fb, body) for bb, t in x.calls()
+    from .compiler_common import family_bodies
+    fam = [x for x in family_bodies(ctx, CR, [BB + '::extract']) if not x.is_promoted]
+    dc = [t for x in [body] + closures_of(ctx.fb, body) + fam for bb, t in x.calls()
           if (callee(t) or '').split('::')[-1] in ('downcast_ref', 'is', 'downcast', 'downcast_mut') and 'Error' in (callee(t) or '')]
     ok = any('http_body_util::limited::LengthLimitError' in g for t in dc for g in t.get('ga', []))
-    ctx.ob('C14.R1', 'limit-error-recognised', ok, body.loc(), 'the collect error is tested against http_body_util::LengthLimitError: %s' % ok)
+    uses_limited = any(callee(t) == 'http_body_util::limited::Limited::new' for x in [body] + fam for _, t in x.calls())
+    if uses_limited:
+        ctx.ob('C14.R1', 'limit-error-recognised', ok, body.loc(), 'the collect error is tested against http_body_util::LengthLimitError: %s' % ok)
 
 
 def _none_only_when_disabled(ctx, fn_path):
@@ -211,7 +215,8 @@ def r2_sole_constructors(ctx):
              'that yields None only in the Disabled arm) and the Enabled arm calls _extract_with_limit with the max_size read from the '
              'Enabled payload; no other non-test body of pavex calls collect/poll_frame/frame on the raw incoming body; '
              'JsonBody/UrlEncodedBody::extract take &BufferedBody.')
-    allowed = {BB + '::extract', BB + '::_extract_with_limit'}
+    from .compiler_common import family_items
+    allowed = {BB + '::extract', BB + '::_extract_with_limit'} | family_items(ctx, CR, [BB + '::extract'])
     n = 0
     for b in ctx.fb.bodies(CR):
         if b.is_promoted:
